@@ -1804,4 +1804,65 @@ theorem resolveQ_alias (imp : String) (tabs : List DObj) (hU : aliasesUnambiguou
   rw [specAliasMap_split, amGet_append, hv', this]
 
 
+/-- a statement of the fragment is a write of one SELECT block of the fragment -/
+theorem fragStmt_select (env : Env) (s : Stmt) (hs : fragStmt env s = true) :
+    ∃ d wh grp hav, fragSelect env (stmtTarget s) (.select d (stmtItems s) (stmtFrom s) wh grp hav) = true := by
+  cases s with
+  | insert kd tk tgt cols q br =>
+    cases cols with
+    | some _ => simp [fragStmt] at hs
+    | none =>
+      cases q with
+      | setop _ _ => simp [fragStmt, fragSelect] at hs
+      | withq _ _ => simp [fragStmt, fragSelect] at hs
+      | select d its frm wh grp hav => exact ⟨d, wh, grp, hav, by simpa [fragStmt, stmtTarget, stmtItems, stmtFrom] using hs⟩
+  | ctas tgt orr ine q br =>
+    cases q with
+    | setop _ _ => simp [fragStmt, fragSelect] at hs
+    | withq _ _ => simp [fragStmt, fragSelect] at hs
+    | select d its frm wh grp hav => exact ⟨d, wh, grp, hav, by simpa [fragStmt, stmtTarget, stmtItems, stmtFrom] using hs⟩
+  | createView tgt orr cols q =>
+    cases cols with
+    | some _ => simp [fragStmt] at hs
+    | none =>
+      cases q with
+      | setop _ _ => simp [fragStmt, fragSelect] at hs
+      | withq _ _ => simp [fragStmt, fragSelect] at hs
+      | select d its frm wh grp hav => exact ⟨d, wh, grp, hav, by simpa [fragStmt, stmtTarget, stmtItems, stmtFrom] using hs⟩
+  | query _ _ => simp [fragStmt] at hs
+  | insertValues _ _ _ => simp [fragStmt] at hs
+  | createTable _ _ _ => simp [fragStmt] at hs
+  | createTableLike _ _ => simp [fragStmt] at hs
+  | update _ _ _ _ _ => simp [fragStmt] at hs
+  | merge _ _ _ _ _ _ => simp [fragStmt] at hs
+  | copy _ _ => simp [fragStmt] at hs
+  | drop _ _ _ => simp [fragStmt] at hs
+  | alterRename _ _ => simp [fragStmt] at hs
+  | renameTable _ => simp [fragStmt] at hs
+  | noop _ _ => simp [fragStmt] at hs
+  | unsupported _ => simp [fragStmt] at hs
+
+/-- on the fragment every source column has an owner (nothing is left unresolved) -/
+theorem srcCol_owned (env : Env) (tgt : List String) (d : Bool) (its : List Item) (frm : List FromExpr) (wh : Option Expr)
+    (grp : List Expr) (hav : Option Expr) (hfrag : fragSelect env tgt (.select d its frm wh grp hav) = true)
+    (e : Expr) (a : Option String) (k : Bool) (hit : Item.mk e a k ∈ its) (r : String × Option String) (hr : r ∈ refs e) :
+    ∃ o, colParent (srcCol env.importDefault (fromTabs env frm) (normRef r)).key = some o := by
+  rw [colParent_key]
+  cases hq : (normRef r).2 with
+  | some q =>
+    refine ⟨(resolveQ env.importDefault (fromTabs env frm) q).1, ?_⟩
+    simp only [srcCol, hq, Column.mk1, Column.parent?, Option.map_some]
+  | none =>
+    simp only [fragSelect, Bool.and_eq_true, List.all_eq_true] at hfrag
+    have hi := hfrag.2 _ hit
+    simp only [itemOK, Bool.and_eq_true, List.all_eq_true] at hi
+    have := hi.2 r hr
+    simp only [refOK, hq, beq_iff_eq] at this
+    cases htabs : fromTabs env frm with
+    | nil => rw [htabs] at this; cases this
+    | cons t rest =>
+      refine ⟨t.d, ?_⟩
+      simp only [srcCol, hq, Column.mk1, Column.parent?, List.head?_cons, Option.map_some]
+
+
 end SqlLineage.ColumnsExact
